@@ -77,10 +77,14 @@ func (resp response) MarshalJSON() ([]byte, error) {
 		return nil, err
 	}
 
-	// Inline the custom attributes.
+	// Inline the custom attributes. They must never take the place of the
+	// response's own members, e.g. "client_id" or "client_secret".
+	reservedKeys := jsonKeys(resp)
 	delete(rawValues, "custom_attributes")
 	for k, v := range resp.CustomAttributes {
-		rawValues[k] = v
+		if !slices.Contains(reservedKeys, k) {
+			rawValues[k] = v
+		}
 	}
 
 	return json.Marshal(rawValues)
